@@ -416,7 +416,8 @@ class SoftAlignment(Alignment):
 
         for i, unitary_align in enumerate(self):
             for annotator, unit in unitary_align.n_tuple:
-                if unit is not None:
+                # only the continuum's own (annotator, unit) pairs are counted, as in Alignment.check
+                if unit is not None and unit in unit_occurences.get(annotator, ()):
                     unit_occurences[annotator][unit] += 1
 
         for annotator, factors in unit_occurences.items():
